@@ -360,7 +360,7 @@ Definition complies_stringer (E : env) (src : ty) : bool :=
       match get_named E i with
       | Some n =>
           let pkg := if n_has_pkg n then Some (n_pkg_path n) else None in
-          match lookup_field_or_method E (TNamed i) false pkg (s2b "String") with
+          match lookup_field_or_method E src false pkg (s2b "String") with
           | Some (LMethod _ (Sig _ [] _ [r] _) _) => str_eqb (type_string E r) (s2b "string")
           | Some (LField f) =>
               match f_type f with
@@ -381,10 +381,11 @@ Definition complies_getter (E : env) (sg : sig) : bool :=
   | _ => false
   end.
 
-(** util.ParseGetterReturnTypes: (ret, retError, ok) — parameters are not checked. *)
+(** util.ParseGetterReturnTypes: (ret, retError, ok); a getter takes no parameters. *)
 Definition parse_getter_return (E : env) (sg : sig) : option (ty * bool) :=
+  match sg_ptys sg with _ :: _ => None | [] =>
   match sg_rtys sg with
   | [r] => Some (r, false)
   | [r; e] => if is_error_type E e then Some (r, true) else None
   | _ => None
-  end.
+  end end.
